@@ -12,7 +12,7 @@ THEOREMS = ["Econf.C11_set", "Econf.C11_get", "Econf.C11_keys", "Econf.C11_group
             "Econf.C11_refines", "Econf.C11_fresh", "Econf.Struct.tie_macros", "Econf.Struct.api_frames",
             "Leaf.C_stripbrackets", "Leaf.stripSpec_eq"]
 # string helpers translated from the C source on every run (gen/c2lean.py); theorems in lean/Econf/Props/Leaf.lean
-LEAF_FNS = ["stripbrackets"]
+LEAF_FNS = ["stripbrackets", "find_key", "getFromGroupList"]
 RULE = ("random sequences of create/set/get/get-with-default/list operations (1..60, thorough ..300) over a small universe of sections "
         "and keys incl. bracketed, empty and NULL ones and keys with blanks at either end, starting from econf_newKeyFile, econf_newIniFile, "
         "econf_newKeyFile_with_options, parsed files (with and without group-less keys, with key-less sections) and merged objects; every output is compared with a reference ordered map; distinct by op sequence")
